@@ -186,7 +186,8 @@ def c09(ctx):
                 "and equalities incl. t = from, t = until, t = from + delta, for the maximum operation time delta "
                 "in {0, 1, 2, 3, 2 * 10^10}; the replay compares the resulting state (document changed / commitments advanced / "
                 "refused) and the (from, until) pair the parser hands to a recording time validator; then the same "
-                "edges are replayed with every other numeric protocol limit changed in turn.")
+                "edges are replayed with every other numeric protocol limit changed in turn, and with every non-zero time "
+                "moved up by 2^53 (thorough: also 2^62).")
     ctx.assumptions = APPLIER_ASSUME
     # 0: a missing until then means until = from; 2 000 000 000 abstract ticks: "longer than any history" (the harness
     # configures 2 * 10^10 seconds for it - more than a count of nanoseconds can hold)
@@ -218,6 +219,19 @@ def c09(ctx):
         for m in summ.get("mismatches") or []:
             m["key"] = "pvariant%d:" % v + m.get("key", "")
             ctx.add_violation(m)
+    # the same edges with every non-zero time moved up by 2^53 (and, thorough, by 2^62): whole numbers that a double does
+    # not hold exactly - an order-preserving map, the model's verdicts stay
+    for off in ([2 ** 53] if ctx.tier == "quick" else [2 ** 53, 2 ** 62]):
+        for td in ([1] if ctx.tier == "quick" else [0, 1, 3]):
+            with open(saved[td]) as f:
+                summ = ctx.harness_json(["applier-replay", "-td", str(td), "-parser", "-toffset", str(off)], f.read())
+            ctx.cov["evaluations"] += summ["cases"]
+            ctx.cov["traces_validated_against_impl"] += summ["cases"]
+            ctx.cov["stages"].append({"stage": "window cube with all times moved up by %d (time delta %d)" % (off, td),
+                                      "replayed": summ["cases"], "mismatches": summ["n_mismatch"]})
+            for m in summ.get("mismatches") or []:
+                m["key"] = "toffset%d:" % off + m.get("key", "")
+                ctx.add_violation(m)
     ctx.negctl_replay(["applier-replay", "-td", "1", "-parser"], first, bump("updated"))
     if ctx.tier != "quick":
         applier_proofs(ctx)
